@@ -1,7 +1,1513 @@
-//! C16 — not implemented yet.
+//! C16 — search never panics, aborts or hangs on any request that deserializes.
+//! Engine: inputmc requests (isolated, DESIGN §2.7). The parent enumerates requests:
+//!   (1) base requests covering every top-level feature x, for every value location, every value
+//!       of a per-type nasty alphabet (strings: cursors / patterns / scripts / field names / query
+//!       strings / percentages / intervals / enum names; numbers; bool flips; nulls; empty and
+//!       duplicated arrays; dropped and renamed keys), plus hand-written extras and, per index, a
+//!       cursor alphabet derived from real score- and sort-cursors;
+//!   (2) all single-edit neighbours (delete / duplicate / substitute by each byte of a small
+//!       alphabet incl. a multi-byte char) of the serialized base requests that still deserialize.
+//! Every request runs against each index inside worker subprocesses (this binary re-invoked as
+//! `vmc C16 <tier> --replay <batch file>`), one request at a time per worker, under
+//! catch_unwind; the parent attributes a timeout (2 s quick / 10 s thorough), a runaway resident
+//! set or a dead worker to the exact request and restarts the worker on the rest of the batch.
+//! Oracle: every search returns Ok or Err — no panic, no abort, no hang.
+
+use std::collections::{BTreeMap, BTreeSet, HashSet};
+use std::io::{BufRead, BufReader, Write};
+use std::process::{Command, Stdio};
+use std::sync::atomic::{AtomicBool, AtomicUsize, Ordering};
+use std::sync::mpsc;
+use std::time::{Duration, Instant};
+
+use parking_lot::Mutex;
+use serde_json::{json, Value};
+
+use searchlite_core::api::types::SearchRequest;
+
+use vcore::ev::Reporter;
+use vcore::inp::World;
+use vcore::world::Scratch;
+
 use crate::Ctx;
 
-pub fn run(_ctx: &Ctx) -> i32 {
-  eprintln!("C16: check not implemented");
-  2
+// ---------------------------------------------------------------------------------------------
+// Indexes
+
+fn schema_c16() -> Value {
+  json!({"doc_id_field": "_id",
+    "text_fields": [{"name": "body", "analyzer": "default", "stored": true, "indexed": true},
+                    {"name": "title", "analyzer": "default", "stored": true, "indexed": true}],
+    "keyword_fields": [{"name": "kw", "stored": true, "indexed": true, "fast": true},
+                       {"name": "g", "stored": true, "indexed": true, "fast": true}],
+    "numeric_fields": [{"name": "n", "i64": true, "fast": true, "stored": true},
+                       {"name": "f", "i64": false, "fast": true, "stored": true},
+                       {"name": "ts", "i64": true, "fast": true, "stored": true}],
+    "nested_fields": [
+      {"name": "c", "nullable": true, "fields": [
+        {"type": "keyword", "name": "a", "stored": true, "indexed": true, "fast": true},
+        {"type": "numeric", "name": "v", "i64": true, "fast": true, "stored": true, "nullable": true},
+        {"type": "object", "name": "r", "nullable": true, "fields": [
+          {"type": "keyword", "name": "t", "stored": true, "indexed": true, "fast": true}]}]}]})
+}
+
+fn docs() -> Vec<Value> {
+  vec![
+    json!({"_id": "A", "body": "a b c", "title": "rust search", "kw": "x", "g": "g1", "n": 1, "f": 0.5, "ts": 1700000000000i64, "c": [{"a": "p", "v": 1, "r": [{"t": "u"}]}, {"a": "q"}]}),
+    json!({"_id": "B", "body": "a a b", "title": "rust", "kw": "y", "g": "g1", "n": 2, "f": 1.5, "ts": 1700086400000i64}),
+    json!({"_id": "C", "body": "日本日本日本 rust 日本 é a", "title": "b", "kw": ["x", "y"], "g": "g2", "n": [3, 4], "f": [2.5, 0.25], "c": {"a": "q", "v": 7}}),
+    json!({"_id": "D", "body": "c", "kw": "x"}),
+  ]
+}
+
+fn indexes() -> Vec<World> {
+  vec![
+    World::new("c16: 1 segment, 4 docs", schema_c16(), docs()),
+    World::new("c16: 2 segments + tombstone", schema_c16(), docs()).with_layout(vec![2, 2]).with_deleted(&["B"]),
+    World::new("c16: empty index", schema_c16(), vec![]),
+  ]
+}
+
+// ---------------------------------------------------------------------------------------------
+// Base requests (each must deserialize as written and succeed on index 0)
+
+fn bases() -> Vec<(&'static str, Value)> {
+  vec![
+    ("string query (score-cursor path)", json!({"query": "a b", "limit": 1, "return_stored": false, "execution": "wand"})),
+    ("query_string + filter tree + multi-key sort (sort-cursor path)", json!({
+      "query": {"type": "query_string", "query": "a -zz body:b \"a b\"", "fields": ["body", "title"], "boost": 1.5},
+      "filter": {"And": [{"KeywordIn": {"field": "kw", "values": ["x", "y"]}}, {"I64Range": {"field": "n", "min": 0, "max": 10}},
+                         {"Or": [{"F64Range": {"field": "f", "min": 0.0, "max": 9.5}}, {"Not": {"KeywordEq": {"field": "g", "value": "g2"}}}]}]},
+      "sort": [{"field": "n", "order": "desc"}, {"field": "kw"}, {"field": "_score", "order": "asc"}],
+      "limit": 1, "return_stored": true, "execution": "bm25"})),
+    ("bool with term/prefix/wildcard/regex/phrase + fuzzy + bmw", json!({
+      "query": {"type": "bool",
+        "must": [{"type": "term", "field": "body", "value": "a", "boost": 2.0}],
+        "should": [{"type": "prefix", "field": "body", "value": "ru", "max_expansions": 10},
+                   {"type": "wildcard", "field": "title", "value": "r*s?", "max_expansions": 10, "boost": 0.5},
+                   {"type": "regex", "field": "body", "value": "(b|zz)", "max_expansions": 10}],
+        "must_not": [{"type": "phrase", "field": "body", "terms": ["b", "c"], "slop": 1}],
+        "filter": [{"F64Range": {"field": "f", "min": 0.0, "max": 100.0}}],
+        "minimum_should_match": 0, "boost": 1.0},
+      "fuzzy": {"max_edits": 1, "prefix_length": 1, "max_expansions": 10, "min_length": 2},
+      "limit": 10, "return_stored": false, "execution": "bmw", "bmw_block_size": 2})),
+    ("multi_match + highlight + explain + profile", json!({
+      "query": {"type": "multi_match", "query": "rust a", "fields": [{"field": "title", "boost": 2.0}, {"field": "body"}], "match_type": "best_fields",
+                "tie_breaker": 0.3, "operator": "or", "minimum_should_match": "75%", "boost": 1.0},
+      "highlight_field": "body",
+      "highlight": {"fields": {"body": {"pre_tag": "<em>", "post_tag": "</em>", "fragment_size": 10, "number_of_fragments": 2}, "title": {"fragment_size": 5}}},
+      "fields": ["body", "title"], "limit": 10, "return_stored": true, "explain": true, "profile": true})),
+    ("dis_max + rescore", json!({
+      "query": {"type": "dis_max", "queries": [{"type": "term", "field": "title", "value": "rust"}, {"type": "term", "field": "body", "value": "a"}], "tie_breaker": 0.4, "boost": 1.0},
+      "rescore": {"window_size": 2, "query": {"type": "phrase", "field": "body", "terms": ["a", "b"], "slop": 1}, "score_mode": "total"},
+      "limit": 10, "return_stored": false, "explain": true})),
+    ("function_score", json!({
+      "query": {"type": "function_score", "query": {"type": "match_all"},
+        "functions": [{"type": "weight", "weight": 2.0, "filter": {"KeywordEq": {"field": "kw", "value": "x"}}},
+                      {"type": "decay", "field": "n", "origin": 0.0, "scale": 3.0, "offset": 0.0, "decay": 0.5, "function": "linear"},
+                      {"type": "field_value_factor", "field": "f", "factor": 0.25, "modifier": "log1p", "missing": 0.0}],
+        "score_mode": "sum", "boost_mode": "sum", "max_boost": 5.0, "min_score": 0.1, "boost": 1.0},
+      "limit": 10, "return_stored": false})),
+    ("script_score + rank_feature + constant_score(Nested) + candidate_size", json!({
+      "query": {"type": "bool",
+        "must": [{"type": "script_score", "query": {"type": "term", "field": "body", "value": "a"}, "script": "_score + n * w", "params": {"w": 0.1}, "boost": 1.0}],
+        "should": [{"type": "rank_feature", "field": "f", "boost": 1.0, "modifier": "sqrt", "missing": 0.0},
+                   {"type": "constant_score", "filter": {"Nested": {"path": "c", "filter": {"KeywordEq": {"field": "a", "value": "q"}}}}, "boost": 2.5}]},
+      "candidate_size": 5, "limit": 3, "return_stored": false, "execution": "wand"})),
+    ("bucket aggregations with pipelines, no hits", json!({
+      "query": {"type": "match_all"}, "limit": 1, "return_hits": false, "return_stored": false,
+      "aggs": {
+        "t": {"type": "terms", "field": "kw", "size": 5, "shard_size": 10, "min_doc_count": 1, "missing": "none",
+              "aggs": {"st": {"type": "stats", "field": "n", "missing": 0},
+                       "srt": {"type": "bucket_sort", "sort": [{"st.avg": "desc"}], "from": 0, "size": 3},
+                       "ab": {"type": "avg_bucket", "buckets_path": "st.avg"},
+                       "sb": {"type": "sum_bucket", "buckets_path": "st.sum"}}},
+        "h": {"type": "histogram", "field": "n", "interval": 1.0, "offset": 0.0, "min_doc_count": 0, "extended_bounds": {"min": 0.0, "max": 5.0}, "missing": 0.0,
+              "aggs": {"st": {"type": "stats", "field": "f"},
+                       "d": {"type": "derivative", "buckets_path": "st.avg", "gap_policy": "skip", "unit": 1.0},
+                       "m": {"type": "moving_avg", "buckets_path": "st.avg", "window": 2, "predict": 1, "gap_policy": "insert_zeros"},
+                       "bs": {"type": "bucket_script", "buckets_path": {"a": "st.avg", "c": "_count"}, "script": "a / (c + 1)"}}},
+        "dh": {"type": "date_histogram", "field": "ts", "fixed_interval": "1d", "offset": "1h", "min_doc_count": 0,
+               "extended_bounds": {"min": "2023-11-14T00:00:00Z", "max": "2023-11-17T00:00:00Z"}},
+        "dc": {"type": "date_histogram", "field": "ts", "calendar_interval": "month", "hard_bounds": {"min": "2023-01-01T00:00:00Z", "max": "2024-01-01T00:00:00Z"}}}})),
+    ("metric / range / composite / top_hits / significance aggregations", json!({
+      "query": "a", "limit": 2, "return_stored": false,
+      "aggs": {
+        "r": {"type": "range", "field": "f", "keyed": true, "ranges": [{"key": "lo", "to": 1.0}, {"from": 1.0, "to": 2.0}, {"from": 2.0}]},
+        "dr": {"type": "date_range", "field": "ts", "keyed": false, "ranges": [{"key": "old", "to": "2023-11-15T00:00:00Z"}, {"from": "2023-11-15T00:00:00Z"}]},
+        "co": {"type": "composite", "size": 2, "sources": [{"type": "terms", "name": "k", "field": "kw"}, {"type": "histogram", "name": "n", "field": "n", "interval": 2.0}],
+               "aggs": {"p": {"type": "percentiles", "field": "f", "percents": [50.0, 95.0]}}},
+        "ca": {"type": "cardinality", "field": "kw", "precision_threshold": 100},
+        "pr": {"type": "percentile_ranks", "field": "n", "values": [1.0, 3.0]},
+        "es": {"type": "extended_stats", "field": "f"},
+        "vc": {"type": "value_count", "field": "n", "missing": 0},
+        "th": {"type": "top_hits", "size": 2, "from": 0, "fields": ["body"], "sort": [{"field": "n", "order": "desc"}], "highlight_field": "body"},
+        "fl": {"type": "filter", "filter": {"KeywordEq": {"field": "kw", "value": "x"}}, "aggs": {"s": {"type": "stats", "field": "n"}}},
+        "sg": {"type": "significant_terms", "field": "kw", "size": 5, "min_doc_count": 1, "background_filter": {"KeywordEq": {"field": "g", "value": "g1"}}},
+        "ra": {"type": "rare_terms", "field": "g", "max_doc_count": 1, "size": 5, "sampling": {"probability": 0.5, "seed": 42}}}})),
+    ("collapse + inner_hits + suggest + sort", json!({
+      "query": "a rust", "sort": [{"field": "f", "order": "desc"}, {"field": "_score", "order": "desc"}],
+      "collapse": {"field": "g", "inner_hits": {"size": 2, "from": 0, "sort": [{"field": "n", "order": "asc"}]}},
+      "suggest": {"s": {"type": "completion", "field": "title", "prefix": "ru", "size": 3, "fuzzy": {"max_edits": 1, "prefix_length": 1, "max_expansions": 20, "min_length": 2}}},
+      "limit": 2, "return_stored": true})),
+  ]
+}
+
+// ---------------------------------------------------------------------------------------------
+// Nasty alphabets
+
+fn hex_of(s: &[u8]) -> String {
+  s.iter().map(|b| format!("{b:02x}")).collect()
+}
+
+/// String classes: 0 universal, 1 cursor-like, 2 regex/wildcard patterns, 3 scripts, 4 field names and
+/// bucket paths, 5 query strings, 6 percentages / intervals / dates / numbers-as-strings, 7 enum and type names.
+fn add(v: &mut Vec<(u8, String)>, class: u8, xs: &[&str]) {
+  for x in xs {
+    v.push((class, x.to_string()));
+  }
+}
+
+fn nasty_strings(quick: bool) -> Vec<(u8, String)> {
+  let mut v: Vec<(u8, String)> = Vec::new();
+  add(&mut v, 0, &["", "é", "0é0", "\u{0}", "nope"]);
+  v.push((0, "a".repeat(300)));
+  // cursor-like
+  add(&mut v, 1, &["a", "abc", "zz", "00", "7b7d", "6e756c6c", "5b5d", "ff", "日日"]);
+  for s in [
+    "g".repeat(42),
+    "0".repeat(42),
+    " ".repeat(42),
+    "+1".repeat(21),
+    format!("01{}", "f".repeat(40)),
+    "é".repeat(21),
+    format!("a{}a", "é".repeat(20)),
+    format!("0{}0", "é".repeat(3)),
+    "日".repeat(14),
+    format!("{}aa", "😀".repeat(10)),
+    hex_of(br#"{"version":2}"#),
+  ] {
+    v.push((1, s));
+  }
+  // regex / wildcard patterns
+  add(&mut v, 2, &["(", ")", "[", "a{", "*", "?", "**", "a**", "(a", "a)", "[a-", "\\", "a{1000}", "(a{100}){100}", "((((((((((a*)*)*)*)*)*)*)*)*)*", ".*", "^$", "a|", "|", "(?i)a", "\\p{Greek}", "a{2,1}", "\\b", "é*", "?*?*?*?*?*?*a", "r*", "*a*b*c*"]);
+  // scripts
+  add(&mut v, 3, &["1/0", "0/0", "1%0", "_score", "_score +", "((((((((((1))))))))))", "1e999", "-", "--1", "n", "f*1e308*1e308", "params.w", "doc['n']", "1 1", "9999999999999999999999", "_score/(n-n)", "sqrt(-1)", "n/0", "w", "a", "c", "a / c", "a / (c - c)"]);
+  v.push((3, format!("{}1{}", "(".repeat(256), ")".repeat(256))));
+  v.push((3, "1+".repeat(300)));
+  // field names / paths
+  add(&mut v, 4, &["_id", "_score", "body", "title", "kw", "g", "f", "ts", "c.a", "c.v", "c.r", "c.r.t", "_doc", "_count", "_key", "a.b.c.d", ".", "..", "c.", ".a", "st.avg", "st.nope", "st", "t.st.avg", "nope.avg", "st.avg.x", "_count.x"]);
+  // query strings
+  add(&mut v, 5, &[" ", "-a", "body:", ":", "\"", "\"a", "\"a b\"", "body:\"a b", "a AND", "((((", "é日本", "a~", "--", "-\"", "body:a title:b", "nope:a", "a:b:c", "+a", "a^2", "\n", "a a", "a a a b", "rust rust", "日本", "-a -b", "\"\""]);
+  v.push((5, "a ".repeat(200)));
+  // percentages, intervals, dates, numbers-as-strings
+  add(&mut v, 6, &["75%", "0%", "-5%", "1000%", "%", "é%", "1d", "0d", "-1d", "1ms", "0ms", "1x", "d", "9999999999999d", "18446744073709551616d", "1h", "1w", "day", "week", "month", "quarter", "year", "bogus",
+        "2020-01-01T00:00:00Z", "9999-12-31T23:59:59Z", "0000-00-00", "1970-01-01T00:00:00Z", "+262143-01-01T00:00:00Z", "-1", "0", "1", "1e400", "NaN", "inf", "yyyy", "%Y"]);
+  // enum values and type names
+  add(&mut v, 7, &["bm25", "wand", "bmw", "sum", "multiply", "max", "min", "avg", "replace", "total", "and", "or", "best_fields", "most_fields", "cross_fields", "exp", "gauss", "linear", "log", "log1p", "log2p", "sqrt",
+        "reciprocal", "none", "skip", "insert_zeros", "asc", "desc",
+        "term", "prefix", "wildcard", "regex", "match_all", "phrase", "query_string", "terms", "stats", "extended_stats", "value_count", "histogram", "avg_bucket", "sum_bucket", "rare_terms", "significant_terms",
+        "cardinality", "derivative", "moving_avg", "completion"]);
+  if !quick {
+    v.push((0, "a".repeat(65536)));
+    v.push((0, "é".repeat(32768)));
+    v.push((2, format!("{}a", "?*".repeat(40))));
+    v.push((2, "(a|aa)+$".to_string()));
+    v.push((2, format!("{}b", "a?".repeat(30))));
+  }
+  let mut seen = HashSet::new();
+  v.retain(|s| seen.insert(s.1.clone()));
+  v
+}
+
+/// The string class a location belongs to (by the last object key on its path).
+fn location_class(path: &[Seg]) -> u8 {
+  let key = path.iter().rev().find_map(|s| match s {
+    Seg::K(k) => Some(k.as_str()),
+    Seg::I(_) => None,
+  });
+  let under_buckets_path = path.iter().any(|s| matches!(s, Seg::K(k) if k == "buckets_path"));
+  if under_buckets_path {
+    return 4;
+  }
+  match key.unwrap_or("") {
+    "cursor" => 1,
+    "value" => 2,
+    "script" => 3,
+    "field" | "path" | "highlight_field" | "fields" | "name" => 4,
+    "query" | "prefix" | "terms" | "values" => 5,
+    "minimum_should_match" | "fixed_interval" | "calendar_interval" | "offset" | "min" | "max" | "from" | "to" | "format" | "missing" | "key" | "pre_tag" | "post_tag" => 6,
+    "type" | "order" | "execution" | "score_mode" | "boost_mode" | "modifier" | "function" | "match_type" | "operator" | "gap_policy" => 7,
+    _ => 0,
+  }
+}
+
+fn nasty_numbers(quick: bool) -> Vec<Value> {
+  if quick {
+    // one representative per magnitude class (every hanging variant costs a full watchdog period)
+    let texts = ["0", "1", "-1", "255", "50001", "1000000000", "4294967296", "9223372036854775807", "18446744073709551615", "-9223372036854775808", "0.5", "-0.5", "1e-300", "1e38", "1e308", "-1e308"];
+    return texts.iter().map(|t| serde_json::from_str::<Value>(t).unwrap()).collect();
+  }
+  let texts = [
+    "0", "1", "-1", "2", "255", "256", "65535", "50000", "50001", "20001", "1000000", "1000000000", "4294967295", "4294967296", "9223372036854775807", "18446744073709551615", "-9223372036854775808", "0.5", "-0.5", "1e-300",
+    "1e-45", "1e38", "3.5e38", "1e308", "-1e308", "1.5", "100.0", "1e18", "1e19", "-0.0",
+  ];
+  texts.iter().map(|t| serde_json::from_str::<Value>(t).unwrap()).collect()
+}
+
+// ---------------------------------------------------------------------------------------------
+// Structured variants of a base request
+
+#[derive(Clone, Debug)]
+enum Seg {
+  K(String),
+  I(usize),
+}
+
+fn at<'a>(root: &'a mut Value, path: &[Seg]) -> &'a mut Value {
+  let mut cur = root;
+  for p in path {
+    cur = match p {
+      Seg::K(k) => cur.get_mut(k.as_str()).unwrap(),
+      Seg::I(i) => cur.get_mut(*i).unwrap(),
+    };
+  }
+  cur
+}
+
+fn all_paths(v: &Value, cur: &mut Vec<Seg>, out: &mut Vec<Vec<Seg>>) {
+  match v {
+    Value::Object(m) => {
+      for (k, c) in m {
+        cur.push(Seg::K(k.clone()));
+        out.push(cur.clone());
+        all_paths(c, cur, out);
+        cur.pop();
+      }
+    }
+    Value::Array(a) => {
+      for (i, c) in a.iter().enumerate() {
+        cur.push(Seg::I(i));
+        out.push(cur.clone());
+        all_paths(c, cur, out);
+        cur.pop();
+      }
+    }
+    _ => {}
+  }
+}
+
+fn structured_variants(base: &Value, strings: &[(u8, String)], all_classes: bool, numbers: &[Value], out: &mut Vec<String>) {
+  let mut paths = Vec::new();
+  all_paths(base, &mut Vec::new(), &mut paths);
+  for path in &paths {
+    let orig = {
+      let mut b = base.clone();
+      at(&mut b, path).clone()
+    };
+    let mut put = |v: Value| {
+      if v != orig {
+        let mut b = base.clone();
+        *at(&mut b, path) = v;
+        out.push(b.to_string());
+      }
+    };
+    put(Value::Null);
+    match &orig {
+      Value::String(_) => {
+        let class = location_class(path);
+        for (c, s) in strings {
+          if all_classes || *c == 0 || *c == class {
+            put(json!(s));
+          }
+        }
+      }
+      Value::Number(_) => {
+        for n in numbers {
+          put(n.clone());
+        }
+      }
+      Value::Bool(b) => put(json!(!b)),
+      Value::Null => {
+        put(json!("x"));
+        put(json!(1));
+      }
+      Value::Array(a) => {
+        put(json!([]));
+        if let Some(f) = a.first() {
+          put(json!([f.clone(), f.clone()]));
+          let mut many = a.clone();
+          for _ in 0..40 {
+            many.push(f.clone());
+          }
+          put(Value::Array(many));
+        }
+        for i in 0..a.len() {
+          let mut c = a.clone();
+          c.remove(i);
+          put(Value::Array(c));
+        }
+      }
+      Value::Object(m) => {
+        put(json!({}));
+        for k in m.keys() {
+          let mut c = m.clone();
+          let val = c.remove(k).unwrap();
+          put(Value::Object(c.clone()));
+          for nk in ["nope", "", "é", "n", "body", "_score", "_count"] {
+            if !m.contains_key(nk) {
+              let mut d = c.clone();
+              d.insert(nk.to_string(), val.clone());
+              put(Value::Object(d));
+            }
+          }
+        }
+      }
+    }
+  }
+}
+
+/// Hand-written requests for the hypotheses and for interactions single substitutions cannot reach.
+fn extras() -> Vec<Value> {
+  let agg = |a: Value| json!({"query": {"type": "match_all"}, "limit": 1, "return_stored": false, "aggs": {"x": a}});
+  let q = |q: Value| json!({"query": q, "limit": 10, "return_stored": false});
+  let mut v = vec![
+    // H9: the same term in two scoring leaves
+    q(json!({"type": "dis_max", "queries": [{"type": "term", "field": "body", "value": "a"}, {"type": "term", "field": "body", "value": "a"}]})),
+    q(json!({"type": "bool", "must": [{"type": "term", "field": "body", "value": "a"}], "should": [{"type": "term", "field": "body", "value": "a"}]})),
+    q(json!({"type": "bool", "should": [{"type": "term", "field": "body", "value": "a"}, {"type": "prefix", "field": "body", "value": "a"}]})),
+    q(json!({"type": "multi_match", "query": "a", "fields": ["body", "body"]})),
+    q(json!({"type": "dis_max", "queries": [{"type": "query_string", "query": "a"}, {"type": "query_string", "query": "a b"}]})),
+    json!({"query": "a", "limit": 10, "return_stored": false, "rescore": {"window_size": 5, "query": {"type": "dis_max", "queries": [{"type": "term", "field": "body", "value": "a"}, {"type": "term", "field": "body", "value": "a"}]}}}),
+    // H14: histogram bounds loop
+    agg(json!({"type": "histogram", "field": "n", "interval": 1e-300, "extended_bounds": {"min": 0.0, "max": 10.0}})),
+    agg(json!({"type": "histogram", "field": "n", "interval": 1e-300, "hard_bounds": {"min": 0.0, "max": 10.0}})),
+    agg(json!({"type": "histogram", "field": "n", "interval": 1e-9, "extended_bounds": {"min": 0.0, "max": 10.0}})),
+    agg(json!({"type": "histogram", "field": "n", "interval": 1.0, "extended_bounds": {"min": -1e308, "max": 1e308}})),
+    agg(json!({"type": "histogram", "field": "n", "interval": 1.0, "offset": 1e308, "extended_bounds": {"min": 0.0, "max": 1.0}})),
+    agg(json!({"type": "histogram", "field": "n", "interval": 1e-300})),
+    agg(json!({"type": "histogram", "field": "f", "interval": 1e308, "missing": -1e308})),
+    agg(json!({"type": "date_histogram", "field": "ts", "fixed_interval": "1ms", "extended_bounds": {"min": "1970-01-01T00:00:00Z", "max": "2100-01-01T00:00:00Z"}})),
+    agg(json!({"type": "date_histogram", "field": "ts", "fixed_interval": "1ms", "hard_bounds": {"min": "1970-01-01T00:00:00Z", "max": "2100-01-01T00:00:00Z"}})),
+    agg(json!({"type": "date_histogram", "field": "ts", "calendar_interval": "day", "extended_bounds": {"min": "0001-01-01T00:00:00Z", "max": "9999-01-01T00:00:00Z"}})),
+    agg(json!({"type": "composite", "size": 0, "sources": [{"type": "histogram", "name": "n", "field": "n", "interval": 1e-300}]})),
+    agg(json!({"type": "composite", "size": 1000000000, "sources": [{"type": "terms", "name": "k", "field": "kw"}], "after": {"k": 1}})),
+    agg(json!({"type": "composite", "size": 2, "sources": [{"type": "terms", "name": "k", "field": "kw"}], "after": {"nope": "x"}})),
+    agg(json!({"type": "composite", "size": 2, "sources": [{"type": "terms", "name": "k", "field": "kw"}, {"type": "terms", "name": "k", "field": "g"}], "after": {"k": "x"}})),
+    agg(json!({"type": "terms", "field": "kw", "size": 0, "aggs": {"m": {"type": "moving_avg", "buckets_path": "_count", "window": 0}}})),
+    agg(json!({"type": "histogram", "field": "n", "interval": 1.0, "aggs": {"m": {"type": "moving_avg", "buckets_path": "_count", "window": 0, "predict": 1000000000}}})),
+    agg(json!({"type": "histogram", "field": "n", "interval": 1.0, "aggs": {"m": {"type": "moving_avg", "buckets_path": "_count", "window": 1000000000}}})),
+    agg(json!({"type": "histogram", "field": "n", "interval": 1.0, "aggs": {"d": {"type": "derivative", "buckets_path": "_count", "unit": 0.0}}})),
+    agg(json!({"type": "histogram", "field": "n", "interval": 1.0, "aggs": {"b": {"type": "bucket_script", "buckets_path": {"a": "_count"}, "script": "a / 0"}}})),
+    agg(json!({"type": "histogram", "field": "n", "interval": 1.0, "aggs": {"b": {"type": "bucket_script", "buckets_path": {"a": "nope.x"}, "script": "a"}}})),
+    agg(json!({"type": "histogram", "field": "n", "interval": 1.0, "aggs": {"b": {"type": "bucket_sort", "sort": [{"nope": "asc"}], "from": 1000000000, "size": 0}}})),
+    agg(json!({"type": "terms", "field": "kw", "size": 0})),
+    agg(json!({"type": "terms", "field": "kw", "size": 1000000000, "shard_size": 0})),
+    agg(json!({"type": "percentiles", "field": "f", "percents": [-1.0, 0.0, 100.0, 101.0, 1e308]})),
+    agg(json!({"type": "percentiles", "field": "f", "percents": []})),
+    agg(json!({"type": "percentile_ranks", "field": "f", "values": []})),
+    agg(json!({"type": "range", "field": "f", "keyed": true, "ranges": [{"from": 2.0, "to": 1.0}, {"key": "lo"}, {"key": "lo"}]})),
+    agg(json!({"type": "top_hits", "size": 0, "from": 1000000000})),
+    agg(json!({"type": "top_hits", "size": 1000000000, "from": 1000000000, "sort": [{"field": "nope"}]})),
+    agg(json!({"type": "cardinality", "field": "kw", "precision_threshold": 0})),
+    agg(json!({"type": "rare_terms", "field": "g", "sampling": {"probability": 0.0}})),
+    agg(json!({"type": "rare_terms", "field": "g", "sampling": {"probability": 1e308, "size": 0}})),
+    agg(json!({"type": "terms", "field": "c.a", "aggs": {"s": {"type": "stats", "field": "c.v"}}})),
+    // highlight corner cases
+    json!({"query": "rust a", "limit": 10, "return_stored": true, "highlight": {"fields": {"body": {"fragment_size": 0, "number_of_fragments": 0}, "nope": {"fragment_size": 1, "number_of_fragments": 1000000000}, "title": {"pre_tag": "", "post_tag": "", "fragment_size": 1}}}}),
+    json!({"query": "日本 é rust", "limit": 10, "return_stored": false, "highlight_field": "body", "highlight": {"fields": {"body": {"fragment_size": 1, "number_of_fragments": 1000000000}}}}),
+    json!({"query": {"type": "phrase", "field": "body", "terms": ["日本日本日本", "rust"], "slop": 1000000000}, "limit": 10, "return_stored": false, "highlight": {"fields": {"body": {"fragment_size": 11, "number_of_fragments": 3}}}}),
+    json!({"query": "a", "limit": 10, "return_stored": false, "highlight_field": "kw"}),
+    json!({"query": "a", "limit": 10, "return_stored": false, "highlight_field": "c.a"}),
+    // limits
+    json!({"query": "a", "limit": 1000000000, "return_stored": true, "candidate_size": 0}),
+    json!({"query": "a", "limit": 1, "return_stored": true, "candidate_size": 1000000000, "execution": "bmw", "bmw_block_size": 0}),
+    json!({"query": {"type": "match_all"}, "limit": 1000000000, "return_stored": false, "sort": [{"field": "n"}]}),
+    json!({"query": "a", "limit": 0, "return_stored": false}),
+    // fuzzy
+    json!({"query": "a rust", "limit": 10, "return_stored": false, "fuzzy": {"max_edits": 255, "prefix_length": 100, "max_expansions": 0, "min_length": 0}}),
+    json!({"query": "日本 é", "limit": 10, "return_stored": false, "fuzzy": {"max_edits": 2, "prefix_length": 1, "max_expansions": 1000000000, "min_length": 0}}),
+    json!({"query": {"type": "match_all"}, "limit": 1, "return_stored": false, "suggest": {"s": {"type": "completion", "field": "title", "prefix": "é", "size": 0, "fuzzy": {"max_edits": 255, "prefix_length": 9, "max_expansions": 0, "min_length": 0}}}}),
+    json!({"query": {"type": "match_all"}, "limit": 1, "return_stored": false, "suggest": {"s": {"type": "completion", "field": "kw", "prefix": "", "size": 1000000000}}}),
+    // boosts
+    q(json!({"type": "term", "field": "body", "value": "a", "boost": 0.0})),
+    q(json!({"type": "term", "field": "body", "value": "a", "boost": -1.0})),
+    q(json!({"type": "term", "field": "body", "value": "a", "boost": 1e38})),
+    q(json!({"type": "bool", "should": [{"type": "term", "field": "body", "value": "a", "boost": 3e38}, {"type": "term", "field": "body", "value": "b", "boost": 3e38}]})),
+    q(json!({"type": "function_score", "query": {"type": "match_all"}, "functions": [], "max_boost": -1.0})),
+    q(json!({"type": "function_score", "query": {"type": "term", "field": "body", "value": "a"}, "functions": [{"type": "decay", "field": "n", "origin": 0.0, "scale": 0.0}], "boost_mode": "replace"})),
+    q(json!({"type": "function_score", "query": {"type": "term", "field": "body", "value": "a"}, "functions": [{"type": "decay", "field": "n", "origin": 1e308, "scale": 1e-300, "offset": -1.0, "decay": 0.0, "function": "gauss"}]})),
+    q(json!({"type": "function_score", "query": {"type": "term", "field": "body", "value": "a"}, "functions": [{"type": "field_value_factor", "field": "f", "factor": 3e38, "modifier": "reciprocal"}], "score_mode": "multiply", "boost_mode": "multiply"})),
+    q(json!({"type": "script_score", "query": {"type": "match_all"}, "script": "1/0"})),
+    q(json!({"type": "script_score", "query": {"type": "term", "field": "body", "value": "a"}, "script": "_score / (n - n)", "params": {"n": 1.0}})),
+    q(json!({"type": "script_score", "query": {"type": "match_all"}, "script": "w", "params": {"w": 1e308}})),
+    q(json!({"type": "bool", "must": [], "should": [], "must_not": [{"type": "match_all"}], "minimum_should_match": 1000000000})),
+    q(json!({"type": "bool", "must_not": [{"type": "term", "field": "body", "value": "a"}]})),
+    q(json!({"type": "dis_max", "queries": []})),
+    q(json!({"type": "phrase", "terms": []})),
+    q(json!({"type": "phrase", "field": "kw", "terms": ["x"]})),
+    q(json!({"type": "term", "field": "n", "value": "1"})),
+    q(json!({"type": "regex", "field": "kw", "value": ".*"})),
+    q(json!({"type": "prefix", "field": "body", "value": "", "max_expansions": 0})),
+    q(json!({"type": "constant_score", "filter": {"And": []}})),
+    q(json!({"type": "constant_score", "filter": {"Or": []}})),
+    q(json!({"type": "constant_score", "filter": {"Not": {"And": []}}})),
+    q(json!({"type": "constant_score", "filter": {"I64Range": {"field": "n", "min": 9223372036854775807i64, "max": -9223372036854775808i64}}})),
+    q(json!({"type": "constant_score", "filter": {"Nested": {"path": "c", "filter": {"Nested": {"path": "r", "filter": {"KeywordEq": {"field": "t", "value": "u"}}}}}}})),
+    q(json!({"type": "constant_score", "filter": {"Nested": {"path": "c.r", "filter": {"Nested": {"path": "c", "filter": {"KeywordEq": {"field": "a", "value": "q"}}}}}}})),
+    // collapse
+    json!({"query": "a", "limit": 1, "return_stored": false, "collapse": {"field": "kw", "inner_hits": {"size": 0, "from": 1000000000}}}),
+    json!({"query": "a", "limit": 1, "return_stored": false, "collapse": {"field": "c.a"}}),
+    json!({"query": "a", "limit": 2, "return_stored": false, "collapse": {"field": "g"}, "explain": true, "rescore": {"window_size": 0, "query": {"type": "match_all"}}}),
+    // cursor + return_hits
+    json!({"query": "a", "limit": 1, "return_stored": false, "return_hits": false, "cursor": "zz"}),
+  ];
+  // sort on every field kind
+  for f in ["_score", "_id", "body", "title", "kw", "g", "n", "f", "ts", "c", "c.a", "c.v", "c.r.t", "nope", ""] {
+    for o in ["asc", "desc"] {
+      v.push(json!({"query": "a", "limit": 1, "return_stored": false, "sort": [{"field": f, "order": o}]}));
+      v.push(json!({"query": {"type": "match_all"}, "limit": 1, "return_stored": false, "sort": [{"field": f, "order": o}, {"field": f, "order": o}], "collapse": {"field": "g"}}));
+    }
+  }
+  v
+}
+
+/// Cursor alphabet for one index: derived from a real score cursor and a real sort cursor.
+fn cursor_requests(world: &World, strings: &[(u8, String)]) -> Vec<String> {
+  let strings: Vec<String> = strings.iter().filter(|s| s.0 <= 1).map(|s| s.1.clone()).collect();
+  let idx = world.build();
+  let reader = match idx.reader() {
+    Ok(r) => r,
+    Err(_) => return vec![],
+  };
+  let score_base = json!({"query": "a", "limit": 1, "return_stored": false});
+  let sort_base = json!({"query": "a", "limit": 1, "return_stored": false, "sort": [{"field": "n", "order": "desc"}, {"field": "kw"}]});
+  let sort2_base = json!({"query": {"type": "match_all"}, "limit": 1, "return_stored": false, "sort": [{"field": "f", "order": "asc"}, {"field": "_score"}]});
+  let mut out: Vec<String> = Vec::new();
+  let real = |b: &Value| -> Option<String> {
+    let r: SearchRequest = serde_json::from_value(b.clone()).ok()?;
+    vcore::catch(|| reader.search(&r)).ok()?.ok()?.next_cursor
+  };
+  let mut score_cursors: Vec<String> = strings.to_vec();
+  let mut sort_cursors: Vec<String> = strings.to_vec();
+  if let Some(c) = real(&score_base) {
+    // byte-level variants of a valid score cursor: version | generation | score bits | segment | doc | returned
+    score_cursors.push(c.clone());
+    let set = |from: usize, hexs: &str| {
+      let mut s = c.clone();
+      s.replace_range(from..from + hexs.len(), hexs);
+      s
+    };
+    for v in ["00", "02", "ff"] {
+      score_cursors.push(set(0, v));
+    }
+    for v in ["00000000", "ffffffff"] {
+      score_cursors.push(set(2, v));
+    }
+    for v in ["7fc00000", "7f800000", "ff800000", "80000000", "00000000", "ffffffff", "00000001"] {
+      score_cursors.push(set(10, v));
+    }
+    for v in ["ffffffff", "00000001"] {
+      score_cursors.push(set(18, v));
+      score_cursors.push(set(26, v));
+    }
+    for v in ["00000000", "0000c350", "0000c351", "ffffffff"] {
+      score_cursors.push(set(34, v));
+    }
+    score_cursors.push(c.to_uppercase());
+    score_cursors.push(format!("{c}00"));
+    score_cursors.push(c[..40].to_string());
+  }
+  for sb in [&sort_base, &sort2_base] {
+    if let Some(c) = real(sb) {
+      sort_cursors.push(c.clone());
+      let bytes: Vec<u8> = (0..c.len() / 2).map(|i| u8::from_str_radix(&c[2 * i..2 * i + 2], 16).unwrap_or(0)).collect();
+      if let Ok(state) = serde_json::from_slice::<Value>(&bytes) {
+        let mut push = |s: Value| sort_cursors.push(hex_of(s.to_string().as_bytes()));
+        let with = |k: &str, v: Value| {
+          let mut s = state.clone();
+          s[k] = v;
+          s
+        };
+        push(with("values", json!([])));
+        let vals = state["values"].as_array().cloned().unwrap_or_default();
+        let mut more = vals.clone();
+        more.extend(vals.clone());
+        push(with("values", Value::Array(more)));
+        push(with("values", json!(vals.iter().take(1).cloned().collect::<Vec<_>>())));
+        for cv in [json!({"t": "str", "v": "x"}), json!({"t": "score", "v": 0}), json!({"t": "score", "v": 4290772992u32}), json!({"t": "missing"}), json!({"t": "f64", "v": 1e308}), json!({"t": "f64", "v": -0.0}), json!({"t": "i64", "v": i64::MIN}), json!({"t": "i64", "v": i64::MAX})] {
+          push(with("values", json!(vals.iter().map(|_| cv.clone()).collect::<Vec<_>>())));
+          let mut first = vals.clone();
+          if !first.is_empty() {
+            first[0] = cv.clone();
+            push(with("values", Value::Array(first)));
+          }
+        }
+        for r in [0u64, 50000, 50001, 4294967295] {
+          push(with("returned", json!(r)));
+        }
+        push(with("segment_ord", json!(4294967295u32)));
+        push(with("doc_id", json!(4294967295u32)));
+        push(with("version", json!(1)));
+        push(with("version", json!(3)));
+        push(with("generation", json!(state["generation"].as_u64().unwrap_or(0) + 1)));
+        push(with("plan_hash", json!(0)));
+        push(json!({"version": 2}));
+        push(json!([state.clone()]));
+      }
+      sort_cursors.push(c.to_uppercase());
+      sort_cursors.push(format!("{c}0"));
+      sort_cursors.push(c[..c.len() - 2].to_string());
+    }
+  }
+  // every cursor string on every path (a score cursor on the sort path and vice versa included)
+  let all: BTreeSet<String> = score_cursors.into_iter().chain(sort_cursors).collect();
+  for c in &all {
+    for b in [&score_base, &sort_base, &sort2_base] {
+      let mut r = b.clone();
+      r["cursor"] = json!(c);
+      out.push(r.to_string());
+    }
+  }
+  out
+}
+
+fn edit_alphabet(quick: bool) -> Vec<char> {
+  if quick {
+    vec!['"', '\\', '{', '[', ',', ':', '0', '9', '-', '.', 'e', 'é']
+  } else {
+    vec!['"', '\\', '{', '}', '[', ']', ',', ':', '0', '9', '-', '.', 'e', 'E', 'a', ' ', 'é', '日']
+  }
+}
+
+/// All single-edit neighbours of `text` (char-level delete / duplicate / substitute).
+fn edit_neighbours(text: &str, alphabet: &[char], out: &mut Vec<String>) {
+  let chars: Vec<char> = text.chars().collect();
+  for i in 0..chars.len() {
+    let mut d: Vec<char> = chars.clone();
+    d.remove(i);
+    out.push(d.into_iter().collect());
+    let mut d: Vec<char> = chars.clone();
+    d.insert(i, chars[i]);
+    out.push(d.into_iter().collect());
+    for &c in alphabet {
+      if c != chars[i] {
+        let mut d = chars.clone();
+        d[i] = c;
+        out.push(d.into_iter().collect());
+      }
+    }
+  }
+}
+
+// ---------------------------------------------------------------------------------------------
+// Worker subprocess
+
+const WORKER_KEY: &str = "c16_worker";
+
+thread_local! {
+  static PANIC_LOC: std::cell::RefCell<Option<String>> = const { std::cell::RefCell::new(None) };
+}
+
+fn truncate(s: &str, n: usize) -> String {
+  if s.len() <= n {
+    return s.to_string();
+  }
+  let mut end = n;
+  while !s.is_char_boundary(end) {
+    end -= 1;
+  }
+  format!("{}...", &s[..end])
+}
+
+fn worker(spec: &Value) -> i32 {
+  // backstop against runaway allocations (the parent's resident-set guard normally fires first)
+  unsafe {
+    let lim = libc::rlimit { rlim_cur: 24u64 << 30, rlim_max: 24u64 << 30 };
+    libc::setrlimit(libc::RLIMIT_AS, &lim);
+  }
+  std::panic::set_hook(Box::new(|info| {
+    let loc = info.location().map(|l| format!("{}:{}", l.file(), l.line()));
+    PANIC_LOC.with(|p| *p.borrow_mut() = loc);
+  }));
+  let spec = spec.clone();
+  let handle = std::thread::Builder::new()
+    .stack_size(64 << 20)
+    .spawn(move || {
+      let world = World::from_json(&spec["world"]);
+      let idx = world.build();
+      let reader = idx.reader().expect("worker: reader");
+      let out = std::io::stdout();
+      let reqs = spec["requests"].as_array().cloned().unwrap_or_default();
+      for (i, r) in reqs.iter().enumerate() {
+        let text = r.as_str().unwrap_or("");
+        {
+          let mut o = out.lock();
+          let _ = writeln!(o, "S {i}");
+          let _ = o.flush();
+        }
+        let t_req = Instant::now();
+        let mut res = match serde_json::from_str::<SearchRequest>(text) {
+          Err(e) => json!({"o": "undeserializable", "m": truncate(&e.to_string(), 200)}),
+          Ok(req) => {
+            PANIC_LOC.with(|p| *p.borrow_mut() = None);
+            match std::panic::catch_unwind(std::panic::AssertUnwindSafe(|| reader.search(&req))) {
+              Ok(Ok(res)) => json!({"o": "ok", "hits": res.hits.len()}),
+              Ok(Err(e)) => json!({"o": "err", "m": truncate(&format!("{e:#}"), 200)}),
+              Err(p) => {
+                let msg = if let Some(s) = p.downcast_ref::<&str>() {
+                  s.to_string()
+                } else if let Some(s) = p.downcast_ref::<String>() {
+                  s.clone()
+                } else {
+                  "<non-string panic>".to_string()
+                };
+                json!({"o": "panic", "m": truncate(&msg, 400), "loc": PANIC_LOC.with(|p| p.borrow().clone())})
+              }
+            }
+          }
+        };
+        res["ms"] = json!(t_req.elapsed().as_secs_f64() * 1000.0);
+        let mut o = out.lock();
+        let _ = writeln!(o, "D {i} {res}");
+        let _ = o.flush();
+      }
+      let mut o = out.lock();
+      let _ = writeln!(o, "E");
+      let _ = o.flush();
+    })
+    .expect("spawn worker thread");
+  match handle.join() {
+    Ok(()) => 0,
+    Err(_) => 2,
+  }
+}
+
+// ---------------------------------------------------------------------------------------------
+// Parent side: run a list of requests against one world inside workers
+
+#[derive(Clone, Debug, PartialEq)]
+enum Outcome {
+  Ok,
+  Err(String),
+  Undeserializable,
+  Panic { msg: String, loc: String },
+  Hang(String),
+  Died(String),
+  NotRun,
+}
+
+fn rss_bytes(pid: u32) -> u64 {
+  std::fs::read_to_string(format!("/proc/{pid}/statm")).ok().and_then(|s| s.split_whitespace().nth(1).and_then(|x| x.parse::<u64>().ok())).map(|p| p * 4096).unwrap_or(0)
+}
+
+/// CPU seconds (user + system, all threads) consumed so far by process `pid`.
+fn cpu_seconds(pid: u32) -> f64 {
+  let Ok(stat) = std::fs::read_to_string(format!("/proc/{pid}/stat")) else { return 0.0 };
+  // fields after the parenthesised command name: state is field 3, utime 14, stime 15
+  let Some(rest) = stat.rfind(')').map(|i| &stat[i + 1..]) else { return 0.0 };
+  let f: Vec<&str> = rest.split_whitespace().collect();
+  let ticks: u64 = f.get(11).and_then(|x| x.parse::<u64>().ok()).unwrap_or(0) + f.get(12).and_then(|x| x.parse::<u64>().ok()).unwrap_or(0);
+  let hz = unsafe { libc::sysconf(libc::_SC_CLK_TCK) }.max(1) as f64;
+  ticks as f64 / hz
+}
+
+enum Line {
+  S(usize),
+  D(usize, Value),
+  E,
+}
+
+struct RunCfg {
+  tier: &'static str,
+  timeout: Duration,
+  rss_guard: u64,
+  scratch: std::path::PathBuf,
+}
+
+static BATCH_SEQ: AtomicUsize = AtomicUsize::new(0);
+
+/// Run `requests` (texts) against `world`; returns one outcome per request.
+fn run_job(cfg: &RunCfg, world: &Value, requests: &[&str], stop: &AtomicBool) -> Vec<Outcome> {
+  let mut results = vec![Outcome::NotRun; requests.len()];
+  let mut pos = 0usize;
+  let exe = std::env::current_exe().expect("current_exe");
+  while pos < requests.len() && !stop.load(Ordering::Relaxed) {
+    let file = cfg.scratch.join(format!("batch{}.json", BATCH_SEQ.fetch_add(1, Ordering::Relaxed)));
+    std::fs::write(&file, json!({WORKER_KEY: {"world": world, "requests": requests[pos..]}}).to_string()).expect("write batch file");
+    let err_path = file.with_extension("err");
+    let err_file = std::fs::File::create(&err_path).expect("create worker stderr file");
+    let mut child = Command::new(&exe)
+      .args(["C16", cfg.tier, "--replay"])
+      .arg(&file)
+      .stdin(Stdio::null())
+      .stdout(Stdio::piped())
+      .stderr(Stdio::from(err_file))
+      .spawn()
+      .unwrap_or_else(|e| vcore::ev::machinery_failure(&format!("C16: cannot spawn worker: {e}")));
+    let pid = child.id();
+    let stdout = child.stdout.take().unwrap();
+    let (tx, rx) = mpsc::channel::<Line>();
+    let reader = std::thread::spawn(move || {
+      for line in BufReader::new(stdout).lines() {
+        let Ok(line) = line else { break };
+        let msg = if let Some(rest) = line.strip_prefix("S ") {
+          rest.trim().parse().ok().map(Line::S)
+        } else if let Some(rest) = line.strip_prefix("D ") {
+          let mut it = rest.splitn(2, ' ');
+          let i = it.next().and_then(|x| x.parse().ok());
+          let v = it.next().and_then(|x| serde_json::from_str(x).ok());
+          match (i, v) {
+            (Some(i), Some(v)) => Some(Line::D(i, v)),
+            _ => None,
+          }
+        } else if line.trim() == "E" {
+          Some(Line::E)
+        } else {
+          None
+        };
+        if let Some(m) = msg {
+          if tx.send(m).is_err() {
+            break;
+          }
+        }
+      }
+    });
+    let started_child = Instant::now();
+    // (request index, wall start, worker CPU seconds at start, last time the CPU counter moved, last CPU value)
+    let mut cur: Option<(usize, Instant, f64)> = None;
+    let mut last_cpu_move = (Instant::now(), 0.0f64);
+    let mut finished = false;
+    let mut advanced_to = pos;
+    loop {
+      match rx.recv_timeout(Duration::from_millis(25)) {
+        Ok(Line::S(i)) => {
+          let c = cpu_seconds(pid);
+          cur = Some((i, Instant::now(), c));
+          last_cpu_move = (Instant::now(), c);
+        }
+        Ok(Line::D(i, v)) => {
+          let o = match v["o"].as_str().unwrap_or("") {
+            "ok" => Outcome::Ok,
+            "err" => Outcome::Err(v["m"].as_str().unwrap_or("").to_string()),
+            "undeserializable" => Outcome::Undeserializable,
+            "panic" => Outcome::Panic { msg: v["m"].as_str().unwrap_or("").to_string(), loc: v["loc"].as_str().unwrap_or("?").to_string() },
+            other => Outcome::Died(format!("worker protocol error: {other}")),
+          };
+          if v["ms"].as_f64().unwrap_or(0.0) > 200.0 && std::env::var("VERIF_C16_TRACE").is_ok() {
+            eprintln!("slow {:.0} ms: {}", v["ms"].as_f64().unwrap_or(0.0), truncate(requests[pos + i], 300));
+          }
+          results[pos + i] = o;
+          advanced_to = pos + i + 1;
+          cur = None;
+        }
+        Ok(Line::E) => finished = true,
+        Err(mpsc::RecvTimeoutError::Timeout) => {
+          if let Some((i, t0, cpu0)) = cur {
+            let rss = rss_bytes(pid);
+            let cpu = cpu_seconds(pid);
+            if cpu > last_cpu_move.1 + 0.05 {
+              last_cpu_move = (Instant::now(), cpu);
+            }
+            // The watchdog counts the worker's own CPU time, so an overloaded machine cannot fake a
+            // hang; a request that burns no CPU at all for 60 s of wall time is blocked.
+            let over_time = cpu - cpu0 > cfg.timeout.as_secs_f64();
+            let blocked = t0.elapsed() > Duration::from_secs(60) && last_cpu_move.0.elapsed() > Duration::from_secs(60);
+            if over_time || blocked || rss > cfg.rss_guard {
+              unsafe {
+                libc::kill(pid as i32, libc::SIGKILL);
+              }
+              let _ = child.wait();
+              results[pos + i] = Outcome::Hang(if over_time {
+                format!("no result after {:.1} s of CPU time ({:.1} s wall; worker resident set {} MiB when killed)", cpu - cpu0, t0.elapsed().as_secs_f64(), rss >> 20)
+              } else if blocked {
+                format!("no result and no CPU progress for 60 s ({:.1} s wall)", t0.elapsed().as_secs_f64())
+              } else {
+                format!("worker resident set grew to {} MiB within {:.1} s ({:.1} s CPU) without a result (killed by the memory guard)", rss >> 20, t0.elapsed().as_secs_f64(), cpu - cpu0)
+              });
+              advanced_to = pos + i + 1;
+              break;
+            }
+          } else if !finished && started_child.elapsed() > Duration::from_secs(600) && advanced_to == pos {
+            unsafe {
+              libc::kill(pid as i32, libc::SIGKILL);
+            }
+            let _ = child.wait();
+            vcore::ev::machinery_failure("C16: worker produced no output for 600 s");
+          }
+        }
+        Err(mpsc::RecvTimeoutError::Disconnected) => {
+          let status = child.wait().ok();
+          if let Some((i, _, _)) = cur {
+            use std::os::unix::process::ExitStatusExt;
+            let how = status.map(|s| match s.signal() {
+              Some(sig) => format!("worker process killed by signal {sig} (6 = abort, 11 = segfault / stack overflow)"),
+              None => format!("worker process exited with {:?}", s.code()),
+            });
+            let tail = std::fs::read_to_string(&err_path).unwrap_or_default();
+            let tail = tail
+              .lines()
+              .find(|l| l.contains("memory allocation of") || l.contains("overflowed its stack") || l.contains("panicked"))
+              .or_else(|| tail.trim().lines().last())
+              .unwrap_or("")
+              .to_string();
+            results[pos + i] = Outcome::Died(format!("{}; worker stderr: {:?}", how.unwrap_or_else(|| "worker died".into()), truncate(&tail, 160)));
+            advanced_to = pos + i + 1;
+          } else if !finished {
+            vcore::ev::machinery_failure(&format!("C16: worker exited between requests without finishing (status {status:?})"));
+          }
+          break;
+        }
+      }
+    }
+    let _ = reader.join();
+    let _ = std::fs::remove_file(&file);
+    let _ = std::fs::remove_file(&err_path);
+    if finished && cur.is_none() {
+      break;
+    }
+    if advanced_to == pos {
+      vcore::ev::machinery_failure("C16: worker made no progress");
+    }
+    pos = advanced_to;
+  }
+  results
+}
+
+// ---------------------------------------------------------------------------------------------
+// Classification of failures
+
+fn request_has_nonascii_cursor(req: &Value) -> bool {
+  req["cursor"].as_str().map(|c| !c.is_ascii()).unwrap_or(false)
+}
+
+/// score fast path = no sort keys, or a single `_score` key in descending (default) order
+fn is_score_fast_path(req: &Value) -> bool {
+  match req["sort"].as_array() {
+    None => true,
+    Some(a) if a.is_empty() => true,
+    Some(a) => a.len() == 1 && a[0]["field"] == json!("_score") && a[0]["order"] != json!("asc"),
+  }
+}
+
+fn find_aggs<'a>(v: &'a Value, out: &mut Vec<&'a Value>) {
+  match v {
+    Value::Object(m) => {
+      if m.get("type").map(|t| t.is_string()).unwrap_or(false) {
+        out.push(v);
+      }
+      for c in m.values() {
+        find_aggs(c, out);
+      }
+    }
+    Value::Array(a) => {
+      for c in a {
+        find_aggs(c, out);
+      }
+    }
+    _ => {}
+  }
+}
+
+/// A numeric histogram whose bounds span more than 10^8 intervals.
+#[allow(dead_code)]
+fn has_exploding_histogram_bounds(req: &Value) -> bool {
+  let mut nodes = Vec::new();
+  find_aggs(&req["aggs"], &mut nodes);
+  nodes.iter().any(|n| {
+    if n["type"] != json!("histogram") {
+      return false;
+    }
+    let iv = n["interval"].as_f64().unwrap_or(0.0);
+    ["extended_bounds", "hard_bounds"].iter().any(|b| {
+      let (lo, hi) = (n[*b]["min"].as_f64(), n[*b]["max"].as_f64());
+      match (lo, hi) {
+        (Some(lo), Some(hi)) => iv > 0.0 && ((hi - lo) / iv > 1e8 || !((hi - lo) / iv).is_finite()),
+        _ => false,
+      }
+    })
+  })
+}
+
+fn classify(req_text: &str, o: &Outcome) -> Option<&'static str> {
+  let req: Value = serde_json::from_str(req_text).unwrap_or(Value::Null);
+  match o {
+    Outcome::Panic { msg, loc } => {
+      if loc.contains("api/reader.rs") && msg.contains("Utf8Error") && request_has_nonascii_cursor(&req) {
+        return Some(if is_score_fast_path(&req) { "C16-cursor-decode-multibyte-panic" } else { "C16-hex-decode-multibyte-panic" });
+      }
+      if loc.contains("api/reader.rs") && msg.contains("Inconsistent leaf for term key") {
+        return Some("C16-duplicate-term-leaf-assert");
+      }
+      None
+    }
+    _ => None,
+  }
+}
+
+/// Apply `f` to every JSON object whose "type" equals `ty`.
+fn for_each_typed(v: &mut Value, ty: &str, f: &dyn Fn(&mut serde_json::Map<String, Value>)) {
+  match v {
+    Value::Object(m) => {
+      if m.get("type").and_then(|t| t.as_str()) == Some(ty) {
+        f(m);
+      }
+      for c in m.values_mut() {
+        for_each_typed(c, ty, f);
+      }
+    }
+    Value::Array(a) => {
+      for c in a {
+        for_each_typed(c, ty, f);
+      }
+    }
+    _ => {}
+  }
+}
+
+fn has_typed(v: &Value, ty: &str, pred: &dyn Fn(&serde_json::Map<String, Value>) -> bool) -> bool {
+  match v {
+    Value::Object(m) => (m.get("type").and_then(|t| t.as_str()) == Some(ty) && pred(m)) || m.values().any(|c| has_typed(c, ty, pred)),
+    Value::Array(a) => a.iter().any(|c| has_typed(c, ty, pred)),
+    _ => false,
+  }
+}
+
+/// Hypotheses for failures the message alone does not explain: (signature, neutralized requests).
+/// A failure is attributed to the signature when the outcome kind fits and at least one neutralized
+/// request (the same request with only the suspected feature removed) returns normally.
+fn hypotheses(req_text: &str, o: &Outcome) -> Vec<(&'static str, Vec<String>)> {
+  let Ok(req) = serde_json::from_str::<Value>(req_text) else { return vec![] };
+  let aggs = &req["aggs"];
+  let is_hang = matches!(o, Outcome::Hang(_));
+  let is_add_overflow = matches!(o, Outcome::Panic { msg, loc } if loc.contains("query/aggs/mod.rs") && msg.contains("attempt to add with overflow"));
+  let is_alloc = match o {
+    Outcome::Hang(_) => true,
+    Outcome::Died(m) => m.contains("memory allocation of"),
+    Outcome::Panic { msg, .. } => msg.contains("capacity overflow"),
+    _ => false,
+  };
+  let has_bounds = |m: &serde_json::Map<String, Value>| m.contains_key("extended_bounds") || m.contains_key("hard_bounds");
+  let strip_bounds = |ty: &'static str| -> String {
+    let mut r = req.clone();
+    for_each_typed(&mut r["aggs"], ty, &|m| {
+      m.remove("extended_bounds");
+      m.remove("hard_bounds");
+    });
+    r.to_string()
+  };
+  let mut out: Vec<(&'static str, Vec<String>)> = Vec::new();
+  if (is_hang || is_add_overflow) && has_typed(aggs, "histogram", &has_bounds) {
+    out.push((if is_hang { "C16-histogram-bounds-unbounded-buckets" } else { "C16-histogram-bounds-bucket-id-overflow" }, vec![strip_bounds("histogram")]));
+  }
+  if (is_hang || is_add_overflow) && has_typed(aggs, "date_histogram", &has_bounds) {
+    out.push((if is_hang { "C16-date-histogram-bounds-unbounded-buckets" } else { "C16-date-histogram-arith-overflow" }, vec![strip_bounds("date_histogram")]));
+  }
+  if is_add_overflow && has_typed(aggs, "date_histogram", &|m| m.contains_key("offset")) {
+    let mut r = req.clone();
+    for_each_typed(&mut r["aggs"], "date_histogram", &|m| {
+      m.remove("offset");
+    });
+    out.push(("C16-date-histogram-arith-overflow", vec![r.to_string()]));
+  }
+  if is_alloc && has_typed(aggs, "moving_avg", &|m| m.get("predict").and_then(|p| p.as_f64()).map(|p| p >= 1e6).unwrap_or(false)) {
+    let mut r = req.clone();
+    for_each_typed(&mut r["aggs"], "moving_avg", &|m| {
+      m.insert("predict".into(), json!(1));
+    });
+    out.push(("C16-moving-avg-predict-unbounded", vec![r.to_string()]));
+  }
+  if is_alloc && has_typed(aggs, "top_hits", &|m| ["size", "from"].iter().any(|k| m.get(*k).and_then(|p| p.as_f64()).map(|p| p >= 1e6).unwrap_or(false))) {
+    let mut r = req.clone();
+    for_each_typed(&mut r["aggs"], "top_hits", &|m| {
+      m.insert("size".into(), json!(1));
+      m.insert("from".into(), json!(0));
+    });
+    out.push(("C16-top-hits-size-unbounded", vec![r.to_string()]));
+  }
+  out
+}
+
+/// Signature of one failure: by message where that suffices, else by experiment.
+fn attribute(cfg: &RunCfg, world: &Value, text: &str, o: &Outcome, stop: &AtomicBool) -> Option<&'static str> {
+  if let Some(s) = classify(text, o) {
+    return Some(s);
+  }
+  for (sig, neutral) in hypotheses(text, o) {
+    let refs: Vec<&str> = neutral.iter().map(|s| s.as_str()).collect();
+    let outs = run_job(cfg, world, &refs, stop);
+    if outs.iter().any(|x| matches!(x, Outcome::Ok | Outcome::Err(_))) {
+      return Some(sig);
+    }
+  }
+  None
+}
+
+fn failure_key(o: &Outcome) -> Option<String> {
+  match o {
+    Outcome::Panic { msg, loc } => {
+      let m = match msg.find("Inconsistent leaf for term key") {
+        Some(i) => msg[..i + "Inconsistent leaf for term key".len()].to_string(),
+        None => truncate(msg.lines().next().unwrap_or(""), 80),
+      };
+      // line numbers move with every edit of the file: keep the file only
+      let file = loc.rsplit_once(':').map(|x| x.0).unwrap_or(loc);
+      Some(format!("panic in {file}: {m}"))
+    }
+    Outcome::Hang(_) => Some("hang".to_string()),
+    Outcome::Died(m) => Some(format!("died: {}", truncate(m.split(';').next().unwrap_or(""), 60))),
+    _ => None,
+  }
+}
+
+/// Every request obtained by deleting one object key or one array element, biggest deletion first.
+fn removal_candidates(v: &Value) -> Vec<String> {
+  let mut paths = Vec::new();
+  all_paths(v, &mut Vec::new(), &mut paths);
+  let mut out: Vec<(usize, String)> = Vec::new();
+  for p in paths {
+    let (parent, last) = p.split_at(p.len() - 1);
+    let mut c = v.clone();
+    let removed = {
+      let slot = at(&mut c, parent);
+      match (&last[0], slot) {
+        (Seg::K(k), Value::Object(m)) => m.remove(k.as_str()),
+        (Seg::I(i), Value::Array(a)) => Some(a.remove(*i)),
+        _ => None,
+      }
+    };
+    if let Some(r) = removed {
+      let t = c.to_string();
+      if serde_json::from_str::<SearchRequest>(&t).is_ok() {
+        out.push((r.to_string().len(), t));
+      }
+    }
+  }
+  out.sort_by(|a, b| b.0.cmp(&a.0));
+  out.into_iter().map(|x| x.1).collect()
+}
+
+/// Greedy reduction of a failing request: repeatedly delete the biggest part whose deletion keeps
+/// the same failure class (and the same signature). Returns the reduced request and its outcome.
+fn minimize(cfg: &RunCfg, world: &Value, text: &str, outcome: &Outcome, one_at_a_time: bool, budget: Duration, stop: &AtomicBool) -> (String, Outcome) {
+  let t0 = Instant::now();
+  let class = failure_key(outcome);
+  let mut cur = (text.to_string(), outcome.clone());
+  loop {
+    if t0.elapsed() > budget {
+      break;
+    }
+    let Ok(v) = serde_json::from_str::<Value>(&cur.0) else { break };
+    let cands = removal_candidates(&v);
+    let mut next: Option<(String, Outcome)> = None;
+    let same = |_t: &str, o: &Outcome| failure_key(o) == class;
+    if one_at_a_time {
+      for c in &cands {
+        if t0.elapsed() > budget {
+          break;
+        }
+        let o = run_job(cfg, world, &[c.as_str()], stop).pop().unwrap();
+        if same(c, &o) {
+          next = Some((c.clone(), o));
+          break;
+        }
+      }
+    } else {
+      let refs: Vec<&str> = cands.iter().map(|c| c.as_str()).collect();
+      let outs = run_job(cfg, world, &refs, stop);
+      if let Some(k) = (0..cands.len()).find(|&k| same(&cands[k], &outs[k])) {
+        next = Some((cands[k].clone(), outs[k].clone()));
+      }
+    }
+    match next {
+      Some(n) => cur = n,
+      None => break,
+    }
+  }
+  cur
+}
+
+fn describe(o: &Outcome) -> String {
+  match o {
+    Outcome::Panic { msg, loc } => format!("search panicked at {loc}: {msg}"),
+    Outcome::Hang(m) => format!("search did not return: {m}"),
+    Outcome::Died(m) => format!("search killed its process: {m}"),
+    other => format!("{other:?}"),
+  }
+}
+
+pub fn run(ctx: &Ctx) -> i32 {
+  // worker mode: `--replay <batch file>` whose top-level key is WORKER_KEY
+  let replay_json: Option<Value> = ctx.replay.as_ref().map(|p| serde_json::from_slice(&std::fs::read(p).expect("replay file")).expect("json"));
+  if let Some(v) = &replay_json {
+    if let Some(spec) = v.get(WORKER_KEY) {
+      return worker(spec);
+    }
+  }
+  let mut rep = Reporter::new("C16", ctx.tier, "exploration");
+  let quick = ctx.tier.is_quick();
+  let scratch = Scratch::new("c16");
+  let cfg = RunCfg {
+    tier: ctx.tier.name(),
+    timeout: Duration::from_secs(if quick { 2 } else { 10 }),
+    rss_guard: 3u64 << 30,
+    scratch: scratch.path.clone(),
+  };
+  let stop = AtomicBool::new(false);
+  if let (Some(path), Some(v)) = (&ctx.replay, &replay_json) {
+    rep.set_replaying(true);
+    let cs = &v["case"];
+    let text = cs["request_text"].as_str().expect("request_text").to_string();
+    let once = || run_job(&cfg, &cs["world"], &[text.as_str()], &stop).pop().unwrap();
+    let (a, b) = (once(), once());
+    let bad = |o: &Outcome| failure_key(o).is_some();
+    if bad(&a) != bad(&b) {
+      vcore::ev::machinery_failure("NONDETERMINISM on replay");
+    }
+    return if bad(&a) {
+      println!("VIOLATION property=C16 replay={path}\n  what: {}", describe(&a));
+      1
+    } else {
+      println!("replay: no violation ({a:?})");
+      0
+    };
+  }
+
+  // ---- enumerate requests -------------------------------------------------------------------
+  let strings = nasty_strings(quick);
+  let numbers = nasty_numbers(quick);
+  let base_list = bases();
+  // core = base requests + hand-written extras; structured = single-location substitutions
+  let mut core: Vec<String> = Vec::new();
+  for (_, b) in &base_list {
+    core.push(b.to_string());
+  }
+  let n_bases = core.len();
+  for e in extras() {
+    core.push(e.to_string());
+  }
+  let n_extras = core.len() - n_bases;
+  let mut structured: Vec<String> = Vec::new();
+  for (_, b) in &base_list {
+    structured_variants(b, &strings, !quick, &numbers, &mut structured);
+  }
+  let n_structured = structured.len();
+  let mut edits: Vec<String> = Vec::new();
+  let alphabet = edit_alphabet(quick);
+  for (_, b) in &base_list {
+    edit_neighbours(&b.to_string(), &alphabet, &mut edits);
+  }
+  let n_edit_candidates = edits.len();
+  // keep what deserializes; dedupe by the parsed request
+  let mut seen: HashSet<String> = HashSet::new();
+  let keep = |texts: Vec<String>, seen: &mut HashSet<String>| -> Vec<String> {
+    use rayon::prelude::*;
+    let parsed: Vec<Option<String>> = texts.par_iter().map(|t| serde_json::from_str::<SearchRequest>(t).ok().and_then(|r| serde_json::to_string(&r).ok())).collect();
+    let mut out = Vec::new();
+    for (t, k) in texts.into_iter().zip(parsed) {
+      if let Some(k) = k {
+        if seen.insert(k) {
+          out.push(t);
+        }
+      }
+    }
+    out
+  };
+  let core = keep(core, &mut seen);
+  let structured = keep(structured, &mut seen);
+  let edits = keep(edits, &mut seen);
+
+  let worlds = indexes();
+  // base requests must be meaningful: Ok on index 0
+  {
+    let idx = worlds[0].build();
+    let reader = idx.reader().expect("reader");
+    for (name, b) in &base_list {
+      let r: SearchRequest = serde_json::from_value(b.clone()).unwrap_or_else(|e| vcore::ev::machinery_failure(&format!("C16: base request `{name}` does not deserialize: {e}")));
+      match vcore::catch(|| reader.search(&r)) {
+        Ok(Ok(_)) => {}
+        Ok(Err(e)) => vcore::ev::machinery_failure(&format!("C16: base request `{name}` is rejected on index 0: {e:#}")),
+        Err(p) => eprintln!("note: base request `{name}` panics on index 0: {p}"),
+      }
+    }
+  }
+
+  if std::env::var("VERIF_C16_TRACE").is_ok() {
+    eprintln!("enumeration done at {:.1}s", rep.elapsed_s());
+  }
+  // ---- jobs: (world, chunk of requests) ------------------------------------------------------
+  struct Job {
+    world: usize,
+    reqs: Vec<usize>,
+  }
+  // Per index: core + cursor alphabet (priority 0), structured variants (priority 1; quick: on the
+  // two-segment index only), text edits (priority 2; quick: two-segment index only).
+  let mut per_world_texts: Vec<Vec<String>> = Vec::new();
+  let mut cursor_counts = Vec::new();
+  let mut jobs: Vec<(u8, Job)> = Vec::new();
+  let chunk = 300usize;
+  for (wi, w) in worlds.iter().enumerate() {
+    let mut texts: Vec<String> = Vec::new();
+    let mut add_part = |prio: u8, chunk: usize, part: Vec<String>, texts: &mut Vec<String>| {
+      let from = texts.len();
+      texts.extend(part);
+      // round-robin, so that slow or hanging variants of one base request spread over all workers
+      let n = texts.len() - from;
+      let njobs = n.div_ceil(chunk).max(1);
+      let mut buckets: Vec<Vec<usize>> = vec![Vec::new(); njobs];
+      for k in 0..n {
+        buckets[k % njobs].push(from + k);
+      }
+      for b in buckets.into_iter().filter(|b| !b.is_empty()) {
+        jobs.push((prio, Job { world: wi, reqs: b }));
+      }
+    };
+    let mut local_seen = seen.clone();
+    let cur = keep(cursor_requests(w, &strings), &mut local_seen);
+    cursor_counts.push(cur.len());
+    // the hand-written extras contain most of the hanging requests: small jobs spread them
+    add_part(0, 12, core.clone(), &mut texts);
+    add_part(0, 120, cur, &mut texts);
+    if !quick || wi == 1 {
+      add_part(1, chunk, structured.clone(), &mut texts);
+    }
+    if !quick || wi == 1 {
+      add_part(2, chunk, edits.clone(), &mut texts);
+    }
+    per_world_texts.push(texts);
+  }
+  jobs.sort_by_key(|j| j.0);
+  let jobs: Vec<Job> = jobs.into_iter().map(|j| j.1).collect();
+  let world_json: Vec<Value> = worlds.iter().map(|w| w.to_json()).collect();
+  let results: Vec<Mutex<Vec<Outcome>>> = per_world_texts.iter().map(|t| Mutex::new(vec![Outcome::NotRun; t.len()])).collect();
+  let next = AtomicUsize::new(0);
+  // wall budget of the sweep; never less than 8 s after the enumeration finished, so that an
+  // overloaded machine still runs the priority-0 jobs instead of producing nothing
+  let deadline = (if quick { 20.0f64 } else { 600.0f64 }).max(rep.elapsed_s() + 8.0);
+  let hangs = AtomicUsize::new(0);
+  std::thread::scope(|s| {
+    for _ in 0..vcore::threads().max(2) {
+      s.spawn(|| loop {
+        let j = next.fetch_add(1, Ordering::Relaxed);
+        if j >= jobs.len() || stop.load(Ordering::Relaxed) {
+          break;
+        }
+        if rep.elapsed_s() > deadline {
+          stop.store(true, Ordering::Relaxed);
+          break;
+        }
+        let job = &jobs[j];
+        let texts: Vec<&str> = job.reqs.iter().map(|&i| per_world_texts[job.world][i].as_str()).collect();
+        let t0 = Instant::now();
+        let out = run_job(&cfg, &world_json[job.world], &texts, &stop);
+        if std::env::var("VERIF_C16_TRACE").is_ok() {
+          eprintln!("job {j} world {} n={} took {:.2}s hangs={}", job.world, texts.len(), t0.elapsed().as_secs_f64(), out.iter().filter(|o| matches!(o, Outcome::Hang(_))).count());
+        }
+        let mut r = results[job.world].lock();
+        for (k, o) in out.into_iter().enumerate() {
+          if matches!(o, Outcome::Hang(_)) {
+            hangs.fetch_add(1, Ordering::Relaxed);
+          }
+          r[job.reqs[k]] = o;
+        }
+      });
+    }
+  });
+  let capped = stop.load(Ordering::Relaxed);
+  let trace = std::env::var("VERIF_C16_TRACE").is_ok();
+  if trace {
+    eprintln!("sweep done at {:.1}s", rep.elapsed_s());
+  }
+
+  // ---- judge ---------------------------------------------------------------------------------
+  let mut counts: BTreeMap<&'static str, u64> = BTreeMap::new();
+  let mut err_kinds: BTreeSet<String> = BTreeSet::new();
+  let mut failures: Vec<(usize, usize, Outcome)> = Vec::new();
+  let mut evals = 0u64;
+  for (wi, r) in results.iter().enumerate() {
+    for (ri, o) in r.lock().iter().enumerate() {
+      let k = match o {
+        Outcome::Ok => "ok",
+        Outcome::Err(m) => {
+          err_kinds.insert(truncate(m, 40));
+          "err"
+        }
+        Outcome::Undeserializable => "undeserializable",
+        Outcome::Panic { .. } => "panic",
+        Outcome::Hang(_) => "hang",
+        Outcome::Died(_) => "died",
+        Outcome::NotRun => "not-run",
+      };
+      *counts.entry(k).or_insert(0) += 1;
+      if !matches!(o, Outcome::NotRun) {
+        evals += 1;
+      }
+      if failure_key(o).is_some() {
+        failures.push((wi, ri, o.clone()));
+      }
+    }
+  }
+  rep.add_evals(evals);
+  // report the shortest witness of every failure class first
+  failures.sort_by_key(|(wi, ri, _)| (per_world_texts[*wi][*ri].len(), *wi));
+  // signatures: by message where that suffices, else by experiment (neutralized requests, batched)
+  let go = AtomicBool::new(false);
+  // a neutralized request that is going to return does so within milliseconds: a short watchdog
+  // keeps refuted hypotheses cheap
+  let exp_cfg = RunCfg { tier: cfg.tier, timeout: Duration::from_millis(500), rss_guard: cfg.rss_guard, scratch: cfg.scratch.clone() };
+  let mut sigs: Vec<Option<&'static str>> = failures.iter().map(|(wi, ri, o)| classify(&per_world_texts[*wi][*ri], o)).collect();
+  {
+    let hyps: Vec<Vec<(&'static str, Vec<String>)>> = failures
+      .iter()
+      .zip(&sigs)
+      .map(|((wi, ri, o), s)| if s.is_some() { vec![] } else { hypotheses(&per_world_texts[*wi][*ri], o) })
+      .collect();
+    let mut neutral_jobs: Vec<(usize, Vec<String>)> = Vec::new();
+    for wi in 0..worlds.len() {
+      let set: BTreeSet<String> = failures.iter().zip(&hyps).filter(|(f, _)| f.0 == wi).flat_map(|(_, h)| h.iter().flat_map(|x| x.1.iter().cloned())).collect();
+      let list: Vec<String> = set.into_iter().collect();
+      for c in list.chunks(25) {
+        neutral_jobs.push((wi, c.to_vec()));
+      }
+    }
+    let passed: Mutex<HashSet<(usize, String)>> = Mutex::new(HashSet::new());
+    let nj = AtomicUsize::new(0);
+    std::thread::scope(|sc| {
+      for _ in 0..vcore::threads().max(2) {
+        sc.spawn(|| loop {
+          let j = nj.fetch_add(1, Ordering::Relaxed);
+          if j >= neutral_jobs.len() {
+            break;
+          }
+          let (wi, list) = &neutral_jobs[j];
+          let refs: Vec<&str> = list.iter().map(|x| x.as_str()).collect();
+          let outs = run_job(&exp_cfg, &world_json[*wi], &refs, &go);
+          let mut p = passed.lock();
+          for (t, o) in list.iter().zip(outs) {
+            if matches!(o, Outcome::Ok | Outcome::Err(_)) {
+              p.insert((*wi, t.clone()));
+            }
+          }
+        });
+      }
+    });
+    let passed = passed.into_inner();
+    for (k, h) in hyps.iter().enumerate() {
+      if sigs[k].is_none() {
+        let wi = failures[k].0;
+        sigs[k] = h.iter().find(|(_, neutral)| neutral.iter().any(|t| passed.contains(&(wi, t.clone())))).map(|x| x.0);
+      }
+    }
+  }
+  if trace {
+    eprintln!("attribution done at {:.1}s", rep.elapsed_s());
+  }
+  let mut class_counts: BTreeMap<String, u64> = BTreeMap::new();
+  let mut first_of_class: Vec<usize> = Vec::new();
+  let mut rest: Vec<usize> = Vec::new();
+  for (k, (_, _, o)) in failures.iter().enumerate() {
+    let key = format!("{} [{}]", failure_key(o).unwrap(), sigs[k].unwrap_or("-"));
+    let e = class_counts.entry(key).or_insert(0);
+    if *e == 0 {
+      first_of_class.push(k);
+    } else {
+      rest.push(k);
+    }
+    *e += 1;
+  }
+  // reduce the first witness of every class (hang classes only in the thorough tier: every
+  // confirming trial costs a full watchdog period); the signature is re-derived for the reduced request
+  let minimized: Vec<Option<(String, Outcome, Option<&'static str>)>> = std::thread::scope(|sc| {
+    let handles: Vec<_> = first_of_class
+      .iter()
+      .map(|&k| {
+        let (wi, ri, o) = &failures[k];
+        let text = per_world_texts[*wi][*ri].clone();
+        let is_hang = matches!(o, Outcome::Hang(_));
+        let cfg = &cfg;
+        let exp_cfg = &exp_cfg;
+        let world = &world_json[*wi];
+        let go = &go;
+        let late = rep.elapsed_s() > 30.0;
+        sc.spawn(move || {
+          if quick && (is_hang || late) {
+            return None;
+          }
+          let budget = Duration::from_secs(if quick { 3 } else if is_hang { 90 } else { 40 });
+          let one = is_hang || matches!(o, Outcome::Died(_));
+          let (t, o2) = minimize(cfg, world, &text, o, one, budget, go);
+          let sig = attribute(exp_cfg, world, &t, &o2, go);
+          Some((t, o2, sig))
+        })
+      })
+      .collect();
+    handles.into_iter().map(|h| h.join().unwrap_or(None)).collect()
+  });
+  if trace {
+    eprintln!("minimization done at {:.1}s", rep.elapsed_s());
+  }
+  for (n, &k) in first_of_class.iter().enumerate() {
+    let (wi, ri, o) = &failures[k];
+    let text = &per_world_texts[*wi][*ri];
+    let (mtext, mo, msig) = match &minimized[n] {
+      // keep the reduction only if it is attributed to the same signature as the original
+      Some((t, o2, sg)) if *sg == sigs[k] => (t.clone(), o2.clone(), *sg),
+      _ => (text.clone(), o.clone(), sigs[k]),
+    };
+    rep.fail(
+      msig,
+      &format!("index [{}] request {} : {}", worlds[*wi].schema_name, truncate(&mtext, 1200), describe(&mo)),
+      json!({"engine": "inputmc-requests", "world": world_json[*wi], "request_text": mtext, "outcome": describe(&mo), "reduced_from": text}),
+    );
+  }
+  for k in rest {
+    let (wi, ri, o) = &failures[k];
+    let text = &per_world_texts[*wi][*ri];
+    rep.fail(
+      sigs[k],
+      &format!("index [{}] request {} : {}", worlds[*wi].schema_name, truncate(text, 1200), describe(o)),
+      json!({"engine": "inputmc-requests", "world": world_json[*wi], "request_text": text, "outcome": describe(o)}),
+    );
+  }
+  for (name, b) in base_list.iter().take(4) {
+    rep.sample(json!({"base_request": name, "json": b}));
+  }
+  if counts.len() < 2 {
+    vcore::ev::machinery_failure("C16: fewer than 2 distinct outcomes observed (vacuous)");
+  }
+  let nontrivial = counts.get("ok").copied().unwrap_or(0) + counts.get("err").copied().unwrap_or(0) + counts.get("panic").copied().unwrap_or(0) + counts.get("hang").copied().unwrap_or(0) + counts.get("died").copied().unwrap_or(0);
+  let cov = vcore::cov! {
+    "distinct_nontrivial" => nontrivial,
+    "rule" => "requests = 10 base requests covering every top-level request feature; for every value location of each base: null, every nasty string (thorough: every string at every string location; quick: the location's own class + the universal class; classes: cursor-like, regex/wildcard patterns, scripts, field names and bucket paths, query strings, percentages/intervals/dates, enum and type names) for strings, every nasty number for numbers, bool flip, for arrays empty / first element duplicated / +40 copies / each element removed, for objects empty / each key dropped / each key renamed to 7 names; hand-written extras (duplicate terms in several scoring leaves, histogram bounds, pipeline windows, highlight, limits, fuzzy, boosts, sorts on every field kind); per index a cursor alphabet built from byte-level variants of a real score cursor and JSON-level variants of two real sort cursors, each presented on the score path and on two sort paths; all single-edit neighbours (delete / duplicate / substitute by each alphabet char) of the serialized base requests. Only requests that deserialize are run, deduplicated by the parsed request. A request is non-trivial when it deserialized and was run to an outcome.",
+    "indexes" => worlds.iter().map(|w| w.describe()).collect::<Vec<_>>(),
+    "base_requests" => n_bases,
+    "structured_variants_generated" => n_structured,
+    "extras" => n_extras,
+    "core_kept" => core.len(),
+    "structured_variants_kept_after_deserialize_and_dedupe" => structured.len(),
+    "structured_variants_run_against" => if quick { "index 1 only" } else { "all indexes" },
+    "cursor_requests_per_index" => cursor_counts,
+    "edit_alphabet" => alphabet.iter().collect::<String>(),
+    "edit_neighbours_generated" => n_edit_candidates,
+    "edit_neighbours_kept" => edits.len(),
+    "edit_neighbours_run_against" => if quick { "index 1 only" } else { "all indexes" },
+    "nasty_strings" => strings.len(),
+    "nasty_numbers" => numbers.len(),
+    "watchdog_s" => cfg.timeout.as_secs(),
+    "outcome_counts" => counts,
+    "distinct_error_messages" => err_kinds.len(),
+    "failure_classes" => class_counts,
+    "distinct_observed_outcomes" => counts.len(),
+    "cap_hit" => if capped { Some(format!("wall budget {deadline}s")) } else { None },
+    "exhaustive" => !capped,
+  };
+  rep.finish(
+    cov,
+    vec![
+      "any Ok or Err result is accepted; result contents are not judged here".into(),
+      "resource use is judged only through the outcome: a request counts as hanging when it has not returned after the watchdog (2 s quick / 10 s thorough) or when its worker's resident set passes 3 GiB on these 4-document indexes".into(),
+      "vector queries are outside this check (feature build)".into(),
+      "requests that do not deserialize are out of scope (C24 covers the HTTP layer)".into(),
+    ],
+  )
 }
